@@ -1,6 +1,185 @@
-/-! `pmodel inventory`: line-protocol driver (stub — replaced by the owner of this model). -/
-namespace Driver.Inventory
+import PhreeqcVerif.Model.Util
+import PhreeqcVerif.Model.Formula
+import PhreeqcVerif.Model.NameDouble
+import PhreeqcVerif.Model.Inventory
+/-! `pmodel inventory`: line-protocol driver of the inventory model (exact `Rat`; numbers arrive as the decimal text of
+the dump, names and formulas as hex).
 
-def run : IO Unit := IO.eprintln "pmodel inventory: not implemented"
+```
+cell <id>                                   start (or reset) a cell description
+sol <id> <fraction> <totalH> <totalO> <cb> <massWater> <hexname>:<val> …
+exch <id> <newdef> | xcomp <id> <cb> name:val …
+surf <id> <type> <dltype> <newdef> | scomp <id> <cb> name:val … | scharge <id> <cb> name:val …
+gas|ss <id> <moles> <hexformula>            pp <id> <moles> <hexformula> <precipOnly> <alt>
+kin <id> <m> <hexformula>:<coef> …
+rxn <hexunits> <equal> <count> <step> …     reactant <hexformula> <coef>          norxn
+amount <inc> <n>                            → A <num>/<den>                       stepAmount
+kstep <inc> <equal> <count> <n> <step> …    → K <num>/<den>                       Current_step
+added <inc> <nsteps>                        → D name:num/den …   what the reaction adds over the steps of one simulation
+inv <id>                                    → I name:num/den …
+assemble <id> <inc> <n>                     → T name:num/den …   totals handed to the solver + what stays in pp/ss
+judge <before> <after> <inc> <nsteps> <tol> <chargeScale> <floor>
+          → J <hexname> <before> <added> <after> <diff> <scale> <ok 0|1|2>  (floats as hex; 2 = below floor, not judged), then "E"
+```
+-/
+namespace Driver.Inventory
+open PhreeqcVerif PhreeqcVerif.Util PhreeqcVerif.NameDouble PhreeqcVerif.Inventory
+
+def ratStr (q : Rat) : String := s!"{q.num}/{q.den}"
+
+/-- a double within one unit in the last place of `q` -/
+def floatOfRat (q : Rat) : Float :=
+  if q == 0 then 0.0 else
+  let n := q.num.natAbs
+  let d := q.den
+  let k : Int := 64 + (Nat.log2 d : Int) - (Nat.log2 n : Int)
+  let t : Nat := if k ≥ 0 then (n <<< k.toNat) / d else n / (d <<< (-k).toNat)
+  let f := (Float.ofNat t).scaleB (-k)
+  if q.num < 0 then -f else f
+
+def outF (q : Rat) : String := hexOfFloat (floatOfRat q)
+
+def pair? (w : String) : Option (String × Rat) :=
+  match w.splitOn ":" with
+  | [a, b] => match unhexStr a, parseDec b with
+    | some n, some v => some (n, v)
+    | _, _ => none
+  | _ => none
+
+def pairs (ws : List String) : List (String × Rat) := ws.filterMap pair?
+
+def dec (s : String) : Rat := (parseDec s).getD 0
+
+def formulaOf (h : String) : Inventory.Formula :=
+  match unhexStr h with
+  | some s => (Formula.parseFormula s).getD []
+  | none => []
+
+structure St where
+  cells : List (String × Cell) := []
+  rxn : Option Reaction := none
+
+def St.getCell (st : St) (id : String) : Cell := (st.cells.lookup id).getD { sols := [] }
+def St.setCell (st : St) (id : String) (c : Cell) : St :=
+  { st with cells := (id, c) :: st.cells.filter (·.1 != id) }
+
+def surfType (n : String) : SurfType :=
+  match n with
+  | "1" => SurfType.noEdl | "2" => SurfType.ddl | "3" => SurfType.cdMusic | "4" => SurfType.ccm | _ => SurfType.unknown
+
+def entries (l : List (String × Rat)) : String :=
+  String.join (l.map fun p => s!" {hexStr p.1}:{ratStr p.2}")
+
+/-- what the reaction adds over one simulation of `nsteps` steps: cumulative mode restarts every step from the
+saved state, so only the last step counts; incremental mode chains the steps -/
+def addedOver (inc : Bool) (r : Reaction) (nsteps : Nat) : List (String × Rat) :=
+  if inc then (List.range nsteps).flatMap fun k => reactionContribs true r (k + 1) 1
+  else reactionContribs false r nsteps 1
+
+def absQ (x : Rat) : Rat := if x < 0 then -x else x
+def maxQ (a b : Rat) : Rat := if a < b then b else a
+
+/-- gross size of what is stored under a key (sum of magnitudes of the contributions) -/
+def gross (l : List (String × Rat)) (e : String) : Rat :=
+  l.foldl (fun a p => if p.1 == e then a + absQ p.2 else a) 0
+
+def step (st : St) (line : String) : St × List String :=
+  match words line with
+  | ["cell", id] => (st.setCell id { sols := [] }, [])
+  | "sol" :: id :: f :: th :: to :: cb :: mw :: rest =>
+    let c := st.getCell id
+    let s : Solution := { totalH := dec th, totalO := dec to, cb := dec cb, massWater := dec mw, totals := pairs rest }
+    (st.setCell id { c with sols := c.sols ++ [(dec f, s)] }, [])
+  | ["exch", id, nd] =>
+    let c := st.getCell id
+    (st.setCell id { c with exch := some { newDef := nd == "1", comps := [] } }, [])
+  | "xcomp" :: id :: cb :: rest =>
+    let c := st.getCell id
+    match c.exch with
+    | some x => (st.setCell id { c with exch := some { x with comps := x.comps ++ [{ totals := pairs rest, cb := dec cb }] } }, [])
+    | none => (st, ["? xcomp without exch"])
+  | ["surf", id, ty, dl, nd] =>
+    let c := st.getCell id
+    (st.setCell id { c with surf := some { typ := surfType ty, hasDL := dl != "0", newDef := nd == "1", comps := [], charges := [] } }, [])
+  | "scomp" :: id :: cb :: rest =>
+    let c := st.getCell id
+    match c.surf with
+    | some s => (st.setCell id { c with surf := some { s with comps := s.comps ++ [{ totals := pairs rest, cb := dec cb }] } }, [])
+    | none => (st, ["? scomp without surf"])
+  | "scharge" :: id :: cb :: rest =>
+    let c := st.getCell id
+    match c.surf with
+    | some s => (st.setCell id { c with surf := some { s with charges := s.charges ++ [{ cb := dec cb, dl := pairs rest }] } }, [])
+    | none => (st, ["? scharge without surf"])
+  | ["gas", id, m, f] =>
+    let c := st.getCell id
+    (st.setCell id { c with gas := c.gas ++ [{ formula := formulaOf f, moles := dec m }] }, [])
+  | ["ss", id, m, f] =>
+    let c := st.getCell id
+    (st.setCell id { c with ss := c.ss ++ [{ formula := formulaOf f, moles := dec m }] }, [])
+  | ["pp", id, m, f, po, alt] =>
+    let c := st.getCell id
+    (st.setCell id { c with pp := c.pp ++ [{ formula := formulaOf f, moles := dec m, precipOnly := po == "1", alt := alt == "1" }] }, [])
+  | "kin" :: id :: m :: rest =>
+    let c := st.getCell id
+    let parts := rest.filterMap fun w => match w.splitOn ":" with
+      | [a, b] => some (formulaOf a, dec b)
+      | _ => none
+    (st.setCell id { c with kin := c.kin ++ [{ m := dec m, parts := parts }] }, [])
+  | "rxn" :: u :: eq :: cnt :: steps =>
+    ({ st with rxn := some { reactants := [], steps := steps.map dec, equal := eq == "1", count := cnt.toNat!,
+                             unitFactor := unitFactorOf ((unhexStr u).getD "") } }, [])
+  | ["norxn"] => ({ st with rxn := none }, [])
+  | ["reactant", f, coef] =>
+    match st.rxn with
+    | some r => ({ st with rxn := some { r with reactants := r.reactants ++ [(formulaOf f, dec coef)] } }, [])
+    | none => (st, ["? reactant without rxn"])
+  | ["amount", inc, n] =>
+    match st.rxn with
+    | some r => (st, [s!"A {ratStr (stepAmount (inc == "1") r n.toNat!)}"])
+    | none => (st, ["A none"])
+  | "kstep" :: inc :: eq :: cnt :: n :: steps =>
+    (st, [s!"K {ratStr (kinStep (inc == "1") (steps.map dec) (eq == "1") cnt.toNat! n.toNat!)}"])
+  | ["added", inc, ns] =>
+    match st.rxn with
+    | some r => (st, [s!"D{entries (ofList (addedOver (inc == "1") r ns.toNat!))}"])
+    | none => (st, ["D"])
+  | ["inv", id] => (st, [s!"I{entries (inventory (st.getCell id))}"])
+  | ["assemble", id, inc, n] =>
+    let a := assemble (st.getCell id) st.rxn (inc == "1") n.toNat! 1 []
+    (st, [s!"T{entries (ofList (a.totals.asList ++ a.pp.flatMap amountContribs ++ a.ss.flatMap amountContribs))}"])
+  | ["judge", b, a, inc, ns, tol, cs, fl] =>
+    let cb := contribs (st.getCell b)
+    let ca := contribs (st.getCell a)
+    let add := match st.rxn with
+      | some r => addedOver (inc == "1") r ns.toNat!
+      | none => []
+    let ib := ofList cb
+    let ia := ofList ca
+    let iadd := ofList add
+    let ks := (ofList ((ib ++ ia ++ iadd).map fun p => (p.1, (0 : Rat)))).map (·.1)
+    let tolQ := dec tol
+    let out := ks.map fun e =>
+      let vb := get ib e
+      let va := get ia e
+      let vd := get iadd e
+      let diff := va - (vb + vd)
+      let scale := if e == "Charge" then maxQ (dec cs) (maxQ (absQ va) (absQ (vb + vd)))
+                   else maxQ (absQ va) (absQ (vb + vd))
+      let ok := if scale ≤ dec fl then "2" else if absQ diff ≤ tolQ * scale then "1" else "0"
+      s!"J {hexStr e} {outF vb} {outF vd} {outF va} {outF diff} {outF scale} {ok}"
+    (st, out ++ ["E"])
+  | [] => (st, [])
+  | _ => (st, ["? " ++ line])
+
+def run : IO Unit := do
+  let stdin ← IO.getStdin
+  let lines ← readLines stdin
+  let out ← IO.getStdout
+  let mut st : St := {}
+  for l in lines do
+    let (st', o) := step st l
+    st := st'
+    for x in o do out.putStrLn x
 
 end Driver.Inventory
